@@ -22,6 +22,9 @@ import tab
 from tab import ilin, ilin_sub, provably_le, provably_eq
 
 
+CALL_NOW = ("then", "map", "map_or", "map_or_else", "and_then", "or_else", "unwrap_or_else", "ok_or_else", "map_err", "is_some_and", "is_ok_and", "filter", "inspect")
+
+
 class Discharger:
     def __init__(self, F, ev, cone_keys):
         self.F, self.ev = F, ev
@@ -55,7 +58,36 @@ class Discharger:
                     seen.add(sig)
                     out.append(env)
             return out[:12]
-        return [Env(self.F.bodies[key])]
+        b = self.F.bodies[key]
+        if b.kind == "Closure" and b.j.get("parent") in self.F.bodies and not getattr(self, "_in_closure_ctx", False):
+            # a closure that is called on the spot by an Option/Result/bool combinator (`cond.then(|| a - b)`,
+            # `x.map_or_else(.., |v| ..)`): one instance per context of its creator, captures resolved, so that the
+            # conditions on the way to the combinator call — and the combinator's own condition — are facts inside it
+            self._in_closure_ctx = True
+            try:
+                outc = []
+                pk = b.j["parent"]
+                for penv in self.contexts(pk):
+                    pb = penv.body
+                    ct = closure_terms_in(self.ev, penv).get(key)
+                    if ct is None:
+                        continue
+                    for cbi, t in pb.calls():
+                        if "fn" not in t or t["fn"]["name"] not in CALL_NOW:
+                            continue
+                        for ai, a in enumerate(t["args"]):
+                            v = self.ev.operand(penv, a, (cbi, None))
+                            if v[0] == "closure" and v[1] == key:
+                                cenv = Env(b, {1: v}, penv.depth + 1, path=penv.path + ((pb.key, cbi),))
+                                cenv.parent = penv
+                                outc.append(cenv)
+                if outc:
+                    return outc[:12]
+            except RecursionError:
+                pass
+            finally:
+                self._in_closure_ctx = False
+        return [Env(b)]
 
     # ---- facts ---------------------------------------------------------------------------------
     def invariants(self, cn, env):
@@ -154,10 +186,20 @@ class Discharger:
                 break
             blk = x.path[-1][1]
             x, bd = par, par.body
-        for bd, x, blk in levels:
+        for li, (bd, x, blk) in enumerate(levels):
             try:
                 g = Guards(self.ev, bd, x)
                 rels, raw = g.relations_at(blk)
+                if li > 0:
+                    # the level below is called from this block: `cond.then(closure)` runs the closure only when cond holds
+                    t = bd.blocks[blk]["term"] if blk < len(bd.blocks) else None
+                    if t is not None and t["k"] == "call" and "fn" in t and t["fn"]["name"] == "then" and "bool" in callee_id(t["fn"]) and len(t["args"]) == 2:
+                        c = self.ev.operand(x, t["args"][0], (blk, None))
+                        for c2, t2 in expand_bool(c, True):
+                            raw = list(raw) + [(c2, t2, None)]
+                            r = canon_rel(c2, t2)
+                            if r:
+                                rels = list(rels) + [r]
             except RecursionError:
                 continue
             for r in rels:
